@@ -525,12 +525,16 @@ func unspill(v ssa.Value) ssa.Value {
 				}
 			}
 		}
-		if _, isRD := in.(*ssa.RunDefers); isRD {
-			last = nil
+		if _, isRD := in.(*ssa.RunDefers); isRD && capturedByClosure(al) {
+			last = nil // a deferred closure may assign the captured variable
 		}
 	}
 	if last != nil {
 		return last
+	}
+	// single-assignment local: the only store in the function dominates this load
+	if sts := storesTo(al); len(sts) == 1 && dominatesInstr(sts[0], u) {
+		return sts[0].Val
 	}
 	return v
 }
@@ -674,12 +678,45 @@ func dominatesInstr(a, b ssa.Instruction) bool {
 // returnsOf lists the Return instructions of fn.
 func returnsOf(fn *ssa.Function) []*ssa.Return {
 	var out []*ssa.Return
+	skipRecover := fn.Recover != nil && !hasRecoveringDefer(fn)
 	eachInstr(fn, func(in ssa.Instruction) {
 		if r, ok := in.(*ssa.Return); ok {
+			if skipRecover && r.Block() == fn.Recover {
+				return // synthetic recover block of a function whose defers never call recover(): unreachable
+			}
 			out = append(out, r)
 		}
 	})
 	return out
+}
+
+// hasRecoveringDefer: some deferred closure of fn calls the builtin recover.
+func hasRecoveringDefer(fn *ssa.Function) bool {
+	found := false
+	eachInstr(fn, func(in ssa.Instruction) {
+		d, ok := in.(*ssa.Defer)
+		if !ok {
+			return
+		}
+		var target *ssa.Function
+		switch v := d.Call.Value.(type) {
+		case *ssa.MakeClosure:
+			target, _ = v.Fn.(*ssa.Function)
+		case *ssa.Function:
+			target = v
+		}
+		if target == nil || !IsFirstParty(target) {
+			return // library functions and cancel funcs do not recover on our behalf
+		}
+		eachInstr(target, func(in2 ssa.Instruction) {
+			if c, ok := in2.(ssa.CallInstruction); ok {
+				if b, ok := c.Common().Value.(*ssa.Builtin); ok && b.Name() == "recover" {
+					found = true
+				}
+			}
+		})
+	})
+	return found
 }
 
 // ---------------------------------------------------------------------------
